@@ -146,7 +146,7 @@ class Ctx:
 
     KINDS = ("talbot-singlet", "talbot-ns", "off-contour", "integer", "talbot-singlet", "off-contour-far")
 
-    def __init__(self, rng, idx):
+    def __init__(self, rng, idx, force_N=None):
         from eko import beta as b
         from eko import mellin
 
@@ -166,6 +166,8 @@ class Ctx:
             self.N = complex(rng.uniform(1.2, 8.0), rng.uniform(-8.0, 8.0))
         else:
             self.N = complex(rng.uniform(1.2, 40.0), rng.uniform(-40.0, 40.0))
+        if force_N is not None:
+            self.kind, self.N = "typed-integer", complex(force_N)
         if not hasattr(self, "t"):
             self.t = float(rng.uniform(0.5, 0.98))
             self.logx = float(np.log(10 ** rng.uniform(-6, -0.05)))
@@ -936,6 +938,51 @@ def build_cases(functions, rng, n_inputs):
     return cases, unsupported
 
 
+TYPED_INTS = (1, 2, 3, 10)  # small integers only: at N=100 python's unbounded ints and int64 differ by construction (not a defect of the kernels)
+
+
+def takes_moment(fn):
+    """Functions of ekore whose Mellin moment may legitimately be an integer (the repository's own tests
+    call the harmonic sums, anomalous dimensions and matching elements with N = 1, 2, 100 as python ints)."""
+    if not fn["mod"].startswith("ekore.") or fn["kind"] != "func":
+        return False
+    short = fn["mod"].split(".")[-1]
+    if (short, fn["name"]) in (("cache", "get"), ("cache", "update"), ("cache", "update_Sm1"), ("cache", "update_Sm2")):
+        return True
+    return any(p in ("N", "n", "Z") for p, _ in fn["params"])
+
+
+def build_typed_cases(functions, rng, with_float=False):
+    """Extra cases with the Mellin moment passed as python int / np.int64 (and float in the thorough tier):
+    a different numba signature, where integer arithmetic (int ** negative int, int / int ...) can differ
+    from the interpreter.  All other arguments are the consistent complex values at that N."""
+    types = [("int", int), ("np.int64", np.int64)] + ([("float", float)] if with_float else [])
+    ctxs = {n0: Ctx(rng, 3 + 6 * j, force_N=n0) for j, n0 in enumerate(TYPED_INTS)}
+    cases = {}
+    for fn in functions:
+        if not takes_moment(fn):
+            continue
+        fq = fn["mod"] + "." + fn["name"]
+        lst = []
+        try:
+            v = 0
+            for n0 in TYPED_INTS:
+                ctx = ctxs[n0]
+                for tname, conv in types:
+                    args = build_args(fn, ctx, v)
+                    typed = tuple(conv(n0) if a is ctx.N else a for a in args)
+                    if not any(a is ctx.N for a in args):
+                        raise Unsupported("moment not among the arguments")
+                    lst.append((dict(ctx.summary(), N_type=tname), typed))
+                    v += 1
+        except Unsupported:
+            continue
+        except Exception:
+            continue
+        cases[fq] = lst
+    return cases
+
+
 # ---------------------------------------------------------------- child side
 def _resolve(a):
     if isinstance(a, (Ref, Col, Build)):
@@ -1081,6 +1128,16 @@ def _load_probe(name, jit):
     return f
 
 
+def _raised_inside_numba(e):
+    tb = e.__traceback__
+    while tb is not None:
+        fn = tb.tb_frame.f_code.co_filename.replace("\\", "/")
+        if "/numba/core/" in fn or "/numba/np/" in fn or "/numba/cpython/" in fn:
+            return True
+        tb = tb.tb_next
+    return False
+
+
 def _path_probe(t, logx, axis_offset):
     """Exercise the jitclass eko.mellin.Path: constructor + the three properties."""
     from eko import mellin
@@ -1132,6 +1189,10 @@ def child_main(inp, outp):
                 if isinstance(e, (KeyboardInterrupt, SystemExit)):
                     raise
                 res = ("exc", type(e).__name__, str(e)[:300])
+                if jit and not isinstance(e, ArithmeticError) and _raised_inside_numba(e):
+                    # internal compiler failure (e.g. a bare AssertionError out of numba's lowering): not a NumbaError,
+                    # but just as much "does not compile"
+                    res = ("compile_error", "internal-" + type(e).__name__, (str(e) or traceback.format_exc()[-600:])[:1500])
             if first:
                 rec["t_first"] = time.time() - tc
                 first = False
